@@ -294,9 +294,12 @@ def _call_subflow(new_state: State, flow_state: FlowState) -> Optional[FlowState
     # Add any new subflow to the new state
     new_state.flow_states.append(subflow_state)
 
-    # Check if we have a next step from the subflow
-    subflow_config = new_state.flow_configs[subflow_state.flow_id]
-    _record_next_step(new_state, subflow_state, subflow_config)
+    # Check if we have a next step from the subflow - unless the subflow itself is
+    # waiting for a subflow that it called while sliding (its head is already past
+    # the call and must not be used before the nested subflow has finished).
+    if subflow_state.status == FlowStatus.ACTIVE:
+        subflow_config = new_state.flow_configs[subflow_state.flow_id]
+        _record_next_step(new_state, subflow_state, subflow_config)
 
     return subflow_state
 
